@@ -82,7 +82,9 @@ class Multiplication:
     offset = 0
     for i in range(first,factor+first-1):
       name = "{}*{}".format(segment_name, i+offset)
-      while name in self.names:
+      # (line(): also the identifiers which a group lists as items, before
+      # the lines with those identifiers are added)
+      while self.line(name) is not None:
         offset+=1
         name = "{}*{}".format(segment_name, i+offset)
       retval.append(name)
